@@ -15,6 +15,7 @@ import operator
 from copy import copy
 from collections.abc import Iterator
 from decimal import Decimal, DivisionByZero, InvalidOperation
+from fractions import Fraction
 from typing import cast, NoReturn
 
 import elementpath.aliases as ta
@@ -660,6 +661,12 @@ def evaluate__idiv_operator(self: XPathToken, context: ta.ContextType = None) ->
         raise self.error('XPTY0004', err) from None
 
     try:
+        if isinstance(op1, float) or isinstance(op2, float):
+            # float floor division rounds its intermediate results: use the exact quotient
+            if isinstance(op2, float) and math.isinf(op2):
+                return 0
+            return math.trunc(Fraction(op1) / Fraction(op2))
+
         result = op1 // op2
         if result >= 0 or isinstance(op1, Decimal) or \
                 isinstance(op2, Decimal) or op1 % op2 == 0:
